@@ -105,6 +105,13 @@ def cases(ctx):
             if not quick or (c0 // chunk) % 4 == 0:
                 yield "nl", {"kind": "grid", "lats": [-x for x in lats], "sorted_abs": True}
         i += 1
+    if not quick:
+        # 0.0001-degree grid (offset by half a step so that it adds new points)
+        N2 = 900000
+        for c0 in range(0, N2, 2000):
+            if ctx.mine(i):
+                yield "nl", {"kind": "grid", "lats": [min(90.0, (k + 0.5) * 0.0001) for k in range(c0, c0 + 2000)], "sorted_abs": True}
+            i += 1
     rng = ctx.rng
     for k in range(ctx.share(1500 if quick else 4000)):
         lats = sorted(rng.uniform(0, 90) for _ in range(250))
